@@ -34,6 +34,14 @@ for pid, fl in [("C01","escape"),("C05","control"),("C07","scope"),("C09","inclu
     PROPS[pid] = evalprop(fl)
     PROPS[pid]["lean_modules"] = [pid]
 
+PROPS["C10"] = {
+    "lean_modules": ["C10"],
+    "rule": "stream 'history': 3-6 programs (residue probes that print yield content / '.' / isset of names other programs bind; programs that fail inside a yield with content, after the content, in a range, in an include with context, in try and catch, in nested yields; random programs of the errors/try/include/scope/blocks/control flavours; constructive-oracle programs), each with its own Set, executed 7-13 times in a random order with repeats inside one worker process on one goroutine (the sync.Pool hands the same Runtime back). Non-trivial = every case (>= 7 calls, at least one probe executed first, again after the others). distinct = distinct history.",
+    "trusted_base": EVAL_TB + ["factgen's extraction of the Runtime field lists (F9): fields of Runtime/escapeeWriter/scope, `st.F = ...` assignments at the top level of Template.Execute and Runtime.recover, uses through receivers of these types; a field used only through an alias the extractor does not follow would be missed (the history stream is the backstop)", "sync.Pool itself (may drop or hand out any pooled Runtime; the theorem covers the worst case: always the same one)"],
+    "assumptions": EVAL_ASSUME + ["Go functions registered by the caller are themselves stateless (the harness's probe log is reset per call)"],
+    "explanation": "Theorems: the reset discipline of the pooled Runtime as a taint machine - for every history of executions, each ending anywhere after touching any fields, no field a later execution can observe carries a value from an earlier one, provided every used field is assigned by Execute or reset by recover; that coverage condition is discharged by decide over the field lists regenerated from eval.go/exec.go on every run (and the converse: an uncovered field leaks). Tie B: the real Execute in histories vs the stateless model, call by call; direct oracle: the same call returns the same result wherever it occurs in the history, and the parsed templates are structurally unchanged afterwards.",
+}
+
 PROPS["C19"] = {
     "lean_modules": ["C19"],
     "rule": "stream 'inmem': histories of 3-12 Set/Delete/Exists/Open operations on one InMemLoader over 3 base names, each operation with a random spelling (./, leading/trailing slashes, x/../, //, clean form); non-trivial = contains a Delete. stream 'multi': stacks of 0-3 in-memory loaders with overlapping contents, every path queried with Exists and Open; non-trivial = >= 2 loaders. stream 'fs' (oracle only): OS, http (http.Dir), embed loaders and an OS loader stacked under an empty in-memory loader over one tree (files, nested and empty directories), every canonical path and near-misses.",
@@ -99,6 +107,11 @@ MANIFEST_TEXT = {
         "level": "Lean 4 theorems: Runtime.isSet, Arguments.IsSet and the isset built-in with >= 1 argument never produce an error or runtime panic, for every expression, data and fuel; zero values are set, nil values are not; a piped argument is judged by its value. Tie: differential execution over access paths valid/invalid at every depth, direct and piped; constructive oracle.",
         "note": "Exactness (true iff every step exists) is covered by correspondence against the implementation and the oracle, not yet by a theorem against an independent existence spec.",
         "technique": "Lean 4 proof about the evaluator model + differential correspondence + constructive direct oracle",
+    },
+    "C10": {
+        "level": "Machine-checked Lean 4 theorem over all histories: the pooled Runtime's reset discipline (assign at the top of Execute, reset in the deferred recover before Put) leaves no field an execution can observe holding a value from an earlier execution, however that earlier execution ended; the coverage premise is decided by the kernel over the field lists factgen regenerates from eval.go/exec.go each run, so a new field, a dropped reset or a missing defer breaks the proof. Tie: the real Execute run in random histories (failing yields with content, ranges, includes, try) on one goroutine vs the stateless evaluator model, plus a model-independent same-call-same-result oracle and a structural hash of every template before/after.",
+        "note": "Purity of the model's execute is by construction (no pooled state in its signature); what is proved is the reset discipline at field granularity, not the heap reachable from those fields (e.g. a caller-supplied VarMap is mutated by Let() by design).",
+        "technique": "Lean 4 proof (invariant by induction over histories, premise discharged by decide over regenerated facts) + differential correspondence over execution histories + direct oracle",
     },
     "C19": {
         "level": "Machine-checked Lean 4 theorems over all histories of Set/Delete and all spellings: the in-memory loader is a finite map keyed by the normalised path (set-then-open returns the stored content under every spelling with that normal form, delete removes it under every spelling and nothing else, Exists implies Open); Multi.Open is the first stacked loader's Open that succeeds and Multi keeps Exists => Open. File-system loaders are modelled as a tree of regular files; their agreement with os/http/embed is exercised on real trees (partial by nature).",
